@@ -86,10 +86,20 @@ func NewSystem(ctx context.Context) (*World, error) {
 	err := w.Bun.RunInTx(ctx, nil, func(ctx context.Context, tx bun.Tx) error {
 		return systemstore.GetMigrator(tx).Up(ctx)
 	})
+	pg.MigrationMode = false
 	if err != nil {
 		return nil, fmt.Errorf("system migrations: %w", err)
 	}
 	return w, nil
+}
+
+// CreateLedger creates a ledger through the real system controller. Migration mode
+// (tolerant of legacy back-fill DML pgsim cannot run, on empty tables only) is on for
+// the duration of the call and never otherwise.
+func (w *World) CreateLedger(ctx context.Context, name string, conf ledger.Configuration) error {
+	w.PG.MigrationMode = true
+	defer func() { w.PG.MigrationMode = false }()
+	return w.Sys.CreateLedger(ctx, name, conf)
 }
 
 func (w *World) Close() {
